@@ -133,11 +133,14 @@ def run(ctx):
         for v in vols:
             x.pop(v)
         st["swapped, no recovery files"] = x       # every slice is still there: repair needed AND possible without any block
+        x = dict(full); x[datapaths[0]] = x[datapaths[0]] + b"zzz"; st["garbage appended"] = x     # (PAR2: every slice still in place)
         return st
 
     st2 = states(full2, ps.index, list(ps.paths.values()), vols2, cap=[ps.paths["b.dat"], ps.paths["c.dat"]])      # 3 slices lost, 3 blocks
     st1 = states(full1, s1.index, list(s1.paths.values()), vols1, cap=list(s1.paths.values())[:2])   # 2 files lost, 2 volumes
     st1.pop("swapped"); st1.pop("swapped, no recovery files")
+    # PAR1: a stale volume of ANOTHER set, of another length, at the next volume number (an earlier Create with more volumes)
+    x = dict(full1); x[s1.index[:-4] + ".p03"] = P1.SpecSet1([("zz", b"0123456789abcdefghijklmnopqrstuvwxyz", True)], 1).volume(1); st1["stale volume of another set"] = x
     cases = []      # (desc, cwd, view, args, fs)
     for fmtname, index, sts in (("par2", ps.index, st2), ("par1", s1.index, st1)):
         for sname, fs in sts.items():
